@@ -129,11 +129,33 @@ pub fn cli(log: &mut Log, seed: u64, tier: &str, fst_bin: &str, work: &str) {
                 Some(t) => t,
                 None => continue,
             };
-            let o = Command::new(fst_bin).arg("grep").arg(&f).arg(pat).arg("--outputs").output().unwrap();
-            let out = parse_out(&o.stdout, true);
             let mut aut = table.to_json(1);
             aut.as_object_mut().unwrap().remove("ev");
-            log.ev(json!({"ev": "CliGrep", "items": jrows(&items), "pat": pat, "aut": aut, "s": [], "e": [], "exit": o.status.code().unwrap_or(-1), "out": jrows(&out)}));
+            // plain, and with the DFA minimised.  (`--start` / `--end` of `fst grep` and `fst fuzzy` are declared
+            // as flags without a value at the pinned commit, so a bound cannot be passed at all: the command
+            // line parser rejects it.  Recorded in DESIGN.md as an observation outside the listed properties.)
+            for variant in 0..2 {
+                let s: Option<String> = None;
+                let e: Option<String> = None;
+                let mut cmd = Command::new(fst_bin);
+                cmd.arg("grep").arg(&f).arg(pat).arg("--outputs");
+                if let Some(s) = &s {
+                    cmd.arg("--start").arg(s);
+                }
+                if let Some(e) = &e {
+                    cmd.arg("--end").arg(e);
+                }
+                if variant == 1 {
+                    cmd.env("FST_BIN_DFA_MINIMIZE", "1");
+                }
+                let o = cmd.output().unwrap();
+                let out = parse_out(&o.stdout, true);
+                let opt = |x: &Option<String>| match x {
+                    Some(x) => json!([jb(x.as_bytes())]),
+                    None => json!([]),
+                };
+                log.ev(json!({"ev": "CliGrep", "items": jrows(&items), "pat": pat, "aut": aut, "s": opt(&s), "e": opt(&e), "exit": o.status.code().unwrap_or(-1), "out": jrows(&out)}));
+            }
         }
         // fuzzy over multi-byte characters
         {
@@ -209,6 +231,53 @@ pub fn cli(log: &mut Log, seed: u64, tier: &str, fst_bin: &str, work: &str) {
             };
             log.ev(json!({"ev": "CliSorted", "kind": kind, "rows": jrows(&rows), "exit": exit, "out": jrows(&out)}));
         }
+    }
+    // an output path that is already taken: refused (and left alone) without --force, replaced with it
+    for round in 0..(if thorough { 24 } else { 8 }) {
+        let cmdname = ["set", "map", "union"][round % 3];
+        let existing = round % 4 != 3;
+        let force = round % 2 == 1;
+        let nr = *pick(&mut r, &[1usize, 5, 20]);
+        let mut rows = rand_items(&mut r, nr, &letters, 3);
+        if cmdname != "map" {
+            for x in rows.iter_mut() {
+                x.1 = 0;
+            }
+        }
+        let outp = work.join("taken.fst");
+        let _ = std::fs::remove_file(&outp);
+        let old: Vec<u8> = (0..r.gen_range(1, 5000)).map(|_| r.gen()).collect();
+        if existing {
+            std::fs::write(&outp, &old).unwrap();
+        }
+        let mut cmd = Command::new(fst_bin);
+        cmd.arg(cmdname);
+        if cmdname == "union" {
+            let p = work.join("u_in.fst");
+            write_map(&p, &rows);
+            cmd.arg(&p).arg(&outp);
+        } else {
+            let inp = work.join("rows2.txt");
+            let mut s = String::new();
+            for (k, v) in &rows {
+                if cmdname == "set" {
+                    s.push_str(&format!("{}\n", k));
+                } else {
+                    s.push_str(&format!("{},{}\n", k, v));
+                }
+            }
+            std::fs::write(&inp, s).unwrap();
+            cmd.arg(&inp).arg(&outp).arg("--sorted");
+        }
+        if force {
+            cmd.arg("--force");
+        }
+        let o = cmd.output().unwrap();
+        let now = std::fs::read(&outp).ok();
+        let untouched = existing && now.as_deref() == Some(&old[..]);
+        let out: Vec<(String, u64)> = now.and_then(|b| fst::Map::new(b).ok()).map(|m| m.stream().into_str_vec().unwrap_or_default()).unwrap_or_default();
+        log.ev(json!({"ev": "CliForce", "cmd": cmdname, "existing": existing, "force": force, "rows": jrows(&rows), "exit": o.status.code().unwrap_or(-1),
+                      "untouched": untouched, "out": jrows(&out)}));
     }
     let _ = std::fs::remove_dir_all(work);
 }
